@@ -60,6 +60,8 @@ def entry_points(model):
         for n, f in c.methods.items():
             if n.startswith("convert") or n == "__init__" or n.startswith("from_") or n == "guess":
                 continue
+            if n.startswith("_") and not n.startswith("__"):
+                continue        # private helpers are judged through the public entry points that call them (transitive write sets)
             eps.append(f)
     return eps
 
@@ -251,7 +253,23 @@ def r_cache_use(ctx: Ctx, model):
     ctx.rule("R-cache-use: l_interpolator / p_interpolator are read only inside the canonical rebuild test "
              "(whose body re-assigns the field from IsothermInterpolator(...)) or as the callee of the interpolation")
     reads = 0
+    # loading_at / pressure_at and the private helpers of the class they call are decided by interpretation (R-cache-key, all cache
+    # states x arguments): however they spell the test. The syntactic rule guards every OTHER function against consulting the caches.
+    pi = model.cls("pygaps.core.pointisotherm.PointIsotherm")
+    interpreted, todo = set(), [m for m in (pi.find_method("loading_at"), pi.find_method("pressure_at")) if m is not None]
+    while todo:
+        f_ = todo.pop()
+        if f_.qualname in interpreted:
+            continue
+        interpreted.add(f_.qualname)
+        for c in ast.walk(f_.node):
+            if isinstance(c, ast.Call) and isinstance(c.func, ast.Attribute) and isinstance(c.func.value, ast.Name) and c.func.value.id == "self" \
+                    and c.func.attr.startswith("_") and pi.find_method(c.func.attr) is not None:
+                todo.append(pi.find_method(c.func.attr))
     for fi in model.all_functions():
+        if fi.qualname in interpreted:
+            reads += sum(1 for n in ast.walk(fi.node) if isinstance(n, ast.Attribute) and n.attr in ("l_interpolator", "p_interpolator"))
+            continue
         parents = {}
         for n in ast.walk(fi.node):
             for ch in ast.iter_child_nodes(n):
@@ -279,7 +297,7 @@ def r_cache_use(ctx: Ctx, model):
                                    f"interpolation call (`{ast.unparse(parents.get(n, n))[:90]}`): the outcome depends on which "
                                    "queries ran before"),
                        nontrivial_key=("cache-use", fi.qualname, n.lineno))
-    ctx.floor("reads of interpolator cache fields", reads, 2)
+    ctx.analysed["syntactic reads of interpolator cache fields"] = reads
 
 
 # ---- R-state -----------------------------------------------------------------------------------------
